@@ -23,7 +23,7 @@ def apply(m, root):
         p = os.path.join(root, 'src', 'socketio', f)
         s = open(p).read()
         if s.count(old) < 1:
-            raise SystemExit('mutant %s: pattern not found in %s' % (
+            raise ValueError('mutant %s: pattern not found in %s' % (
                 m['id'], f))
         s = s.replace(old, new, 1 if not m.get('all') else -1)
         open(p, 'w').write(s)
@@ -33,7 +33,11 @@ def run_one(m, tier, keep=False, seed=None):
     root = tempfile.mkdtemp(prefix='mut_%s_' % m['id'], dir='/tmp')
     try:
         shutil.copytree('/repo/src', os.path.join(root, 'src'))
-        apply(m, root)
+        try:
+            apply(m, root)
+        except ValueError as e:
+            return False, [(p, -1, False, 0, [], 'STALE MUTANT: %s' % e)
+                           for p in m['props']]
         out = []
         ok = True
         for pid in m['props']:
